@@ -264,6 +264,9 @@ func (s *sim) execute() {
 	s.k0 = s.fs.IOCount()
 	s.armed = s.plan.mode != fmNone
 	defer func() {
+		// the simulated machine is discarded: so are the leveldb handles that
+		// failed opens left behind (ffldb does not close them)
+		defer ffldb.VerifReapLeaked()
 		// never leave a store open (its goroutines would outlive the bubble);
 		// after an injected fault Close itself may block for ever (see guard)
 		if s.real != nil {
@@ -484,6 +487,10 @@ func (s *sim) runStep(st *step) {
 				lo = hi - 1
 				if cerr == nil {
 					lo = hi // acknowledged: must have taken effect
+				} else {
+					// refused: the caller was told the update failed and will
+					// undo its own state; the running store must not show it
+					hi = lo
 				}
 			}
 			s.aftermath(lo, hi)
